@@ -320,7 +320,7 @@ def r6(ctx):
         ev = ctx.sym(pb).rvalue_expr(st.rv)
         ok = all(agg_field(ev, f) == ("param", f) for f in ("options", "function", "data"))
         ctx.check(ok, "validate:stores-args", "HeaderCollection stores the validated options/function/data", pb.where(b.idx))
-        full = g_any(g_is(lambda x: mentions_call(x, r"::next$"), "None"),
+        full = g_any(g_is(lambda x: mentions_call(x, r"::next$|ObjectParser::parse_one$"), "None"),
                      # the same pass written as one_pass(..).try_for_each(..)? : the header collection exists only if no header failed
                      g_is(lambda x: mentions_call(x, r"Iterator::try_for_each$|::try_for_each$|::try_fold$") and mentions_call(x, r"ObjectParser::one_pass$"), "Continue"))
         ctx.require_guards(pb, b.idx, [("all headers parsed", full)], "validate:after-full-pass", "HeaderCollection construction")
